@@ -805,6 +805,13 @@ def flatten_path(path, flatten_slashes=False):
     new_parts = collections.deque()
 
     for part in parts:
+        if '%' in part and len(part) <= 6:
+            # "%2e" is a dot: servers decode it before resolving the path
+            plain_part = part.lower().replace('%2e', '.')
+
+            if plain_part in ('.', '..'):
+                part = plain_part
+
         if part == '.' or (flatten_slashes and not part):
             continue
         elif part != '..':
@@ -815,7 +822,7 @@ def flatten_path(path, flatten_slashes=False):
     # If the filename is empty string
     if flatten_slashes and path.endswith('/') or not len(new_parts):
         new_parts.append('')
-    elif parts[-1] in ('.', '..'):
+    elif parts[-1].lower().replace('%2e', '.') in ('.', '..'):
         # A trailing dot segment names a directory
         new_parts.append('')
 
